@@ -135,10 +135,11 @@ class C09(Check):
         for j in range(nrec):
             names = [n for n in pool if d.p(0.6)] or [d.choice(pool)]
             fields = []
+            all_default = d.p(0.3)
             for n in names:
                 t = fixed_type[n]
                 fl = {"name": n, "type": t}
-                w = d.i(3)
+                w = 0 if all_default else d.i(3)
                 if w == 0:
                     fl["default"] = None if isinstance(t, list) else (0 if t == "int" else "")
                 fields.append(fl)
@@ -162,8 +163,9 @@ class C09(Check):
         w = d.i(10)
         if w < 7:
             val = {}
+            sparse = d.p(0.25)
             for n in pool:
-                if d.p(0.5):
+                if d.p(0.1 if sparse else 0.5):
                     t = fixed_type[n]
                     base = t[1] if isinstance(t, list) else t
                     val[n] = None if (isinstance(t, list) and d.p(0.3)) else (d.choice([0, 1, -5]) if base == "int" else d.choice(["", "s"]))
@@ -181,6 +183,10 @@ class C09(Check):
         yield dict(base, schema=["null"] + two, datum={"id": 7})
         yield dict(base, schema=["null"] + two, datum={"id": 7, "reason": "x"})
         yield dict(base, schema=["float", "int", "double"], datum=5)
+        # a mapping that shares no field name with the record it conforms to
+        yield dict(base, schema=["null", {"type": "record", "name": "AllDef", "fields": [{"name": "a", "type": "int", "default": 0}]}], datum={})
+        yield dict(base, schema=["string", {"type": "record", "name": "NoFields", "fields": []}], datum={})
+        yield dict(base, schema=[{"type": "record", "name": "Opt", "fields": [{"name": "a", "type": ["null", "int"]}]}, "int"], datum={"unrelated": 1})
         yield dict(base, schema=["float", "double"], datum=("float", 1.5))
         yield dict(base, schema=["null"] + two, datum={"id": 7, "-type": "Deleted"})
         for js, data in LOGICAL_UNIONS:
